@@ -1,6 +1,6 @@
 #!/bin/bash
 # usage: confirm_seed.sh <worktree> <prop>   -- confirms every seeded_out/m* of a worktree and copies confirmed ones to /verif/seeded
-wt=$1; prop=$2
+wt=$1; prop=$2; pfx=${3:-}
 cd $wt || exit 1
 git checkout -q -- space_packet_parser
 for d in seeded_out/m*; do
@@ -13,7 +13,7 @@ for d in seeded_out/m*; do
   git checkout -q -- space_packet_parser
   echo "$prop $m: demo clean=$r_clean mutated=$r_mut tests: $tests"
   if [ "$r_clean" = "0" ] && [ "$r_mut" != "0" ] && echo "$tests" | grep -q "passed" && ! echo "$tests" | grep -q "failed"; then
-    dest=/verif/seeded/${prop}_$m
+    dest=/verif/seeded/${prop}_${pfx}$m
     mkdir -p $dest
     cp $d/patch.diff $d/demo.py $dest/
     python3 - "$d/meta.json" "$dest/meta.json" "$prop" "$tests" <<'PY'
